@@ -198,7 +198,7 @@ impl Prop for C17 {
                 }
                 if rng.chance(1, 3) {
                     case.args.push("-p".into());
-                    let n = if rng.chance(1, 2) { 1 } else { k };
+                    let n = *rng.pick(&[1usize, k, k, k + 1, 0]);
                     case.args.push((0..n).map(|_| precision_arg(&mut rng)).collect::<Vec<_>>().join(","));
                 }
                 if rng.chance(1, 6) {
@@ -249,6 +249,9 @@ impl Prop for C17 {
                             _ => vec![a, a],
                         };
                         axes = pat.into_iter().map(|x| x.to_string()).collect();
+                    }
+                    if rng.chance(1, 12) {
+                        axes = vec![(*rng.pick(&["", ",", "0,", ",0"])).to_string()];
                     }
                     case.args.push(flag.into());
                     case.args.push(axes.join(","));
@@ -540,7 +543,16 @@ impl Prop for C17 {
                     }
                     1 => {
                         case.args.push("-s".into());
-                        case.args.push("nosuchsample".into());
+                        let a = rng.pick(names).clone();
+                        case.args.push(match rng.below(7) {
+                            0 => "nosuchsample".to_string(),
+                            1 => "=pop".to_string(),
+                            2 => format!("{a}="),
+                            3 => ",".to_string(),
+                            4 => format!("{a},,{a}"),
+                            5 => format!("{a}=x=y"),
+                            _ => format!("{a}=\t"),
+                        });
                     }
                     2 => {
                         case.family = "create_contradictory_samples".into();
@@ -558,6 +570,9 @@ impl Prop for C17 {
                     3 => {
                         case.family = "create_samples_file".into();
                         let mut txt = String::new();
+                        if rng.chance(1, 8) {
+                            txt.push_str(*rng.pick(&["\n\n\n", "", "\t\n", "\r\n", " \n"]));
+                        }
                         for (i, n) in names.iter().enumerate() {
                             match rng.below(5) {
                                 0 => txt.push_str(&format!("{n}\n")),
